@@ -251,7 +251,7 @@ def known(case, verdict):
     per = case["ctor"]["periodic"]
     c = verdict.get("ctor") or {}
     impl, model, spec = c.get("impl", {}), c.get("model", {}), c.get("spec", {})
-    if not isinstance(per, list) or "__exc__" in impl or not verdict["corr_ok"]:
+    if not isinstance(per, list) or "__exc__" in impl:
         return None
     names = [a["name"] for a in case["layout"]["axes"]]
     diff = [n for n in names if impl.get(n) != spec.get(n)]
